@@ -4,6 +4,7 @@ M2 (controller-stepped op interleavings, exact compare incl. ids around the 32-b
 tasks with rendezvous overlap audits) in a live runtime, several QT_ARGCOPY_SIZE / QT_TASKLOCAL_SIZE variants."""
 import json
 from .. import core
+from . import _gen
 
 M32 = 1 << 32
 M64 = 1 << 64
@@ -317,6 +318,7 @@ def corpus_cases():
 def run(ctx):
     rng = ctx.rng
     quick = ctx.tier == "quick"
+    _gen.regen(ctx, ["Ident"])      # Gen/Ident.v regenerated from the source + Properties_Gen_C09.v (tools/ctrans.py)
     pr = ctx.coq_properties("Properties/Properties_C09.v")
     ok, log = ctx.coq_make(["theories/Kernel/TasklocalExtract.vo"])
     if not ok:
